@@ -259,6 +259,8 @@ class Evaluator:
         it = gen.iter
         if isinstance(it, ast.Call) and isinstance(it.func, ast.Name) and it.func.id == "every":
             cname = it.args[0].value
+            if cname in ("str", "int"):
+                raise Skip("unbounded quantifier over a value type")
             cls = self.ns[cname]
             reg = getattr(self, "registry", {})
             if cname in reg:
@@ -340,6 +342,8 @@ class Evaluator:
             if name == "seq": return list(ev(A[0]))
             if name == "keys": return list(ev(A[0]).keys())
             if name == "vals": return dict(ev(A[0]))
+            if name == "vals_seq": return list(ev(A[0]).values())
+            if name == "vals_set": return set(ev(A[0]))
             if name == "store":
                 d = dict(ev(A[0])); d[ev(A[1])] = ev(A[2]); return d
             if name == "select": return ev(A[0])[ev(A[1])]
